@@ -171,3 +171,44 @@ func VerifC05_roundtrip() {
 		verifC05Shape(2, 3, 4, 1)
 	}
 }
+
+type vfQuotaWriter struct {
+	failAt, calls int
+	got           []byte
+}
+
+type vfQuotaErr struct{}
+
+func (vfQuotaErr) Error() string { return "destination refused" }
+
+func (w *vfQuotaWriter) Write(p []byte) (int, error) {
+	i := w.calls
+	w.calls++
+	if w.failAt >= 0 && i >= w.failAt {
+		return 0, vfQuotaErr{}
+	}
+	w.got = append(w.got, p...)
+	return len(p), nil
+}
+
+// VerifC05_success: "rendering succeeded" is to be believed: whenever RenderTo returns nil - also into a
+// destination that starts refusing data at some point - what the destination holds parses back to the table.
+func VerifC05_success() {
+	t := New()
+	t.AddHeaders("h1", "h2")
+	t.AddRowItems(vfString("a", 1, vfBYTES), "x\"y")
+	t.AddSeparator()
+	t.AddRowItems("only")
+	w := &vfQuotaWriter{failAt: vfInt("k", -1, 12)}
+	err := t.RenderTo(w)
+	recs, ok := vf4180Parse(string(w.got))
+	good := vfAnd(ok, len(recs) == 3)
+	if ok && len(recs) == 3 {
+		good = vfAnd(good, vfAnd(len(recs[0]) == 2, vfAnd(len(recs[1]) == 2, len(recs[2]) == 2)))
+		if len(recs[0]) == 2 && len(recs[1]) == 2 && len(recs[2]) == 2 {
+			good = vfAnd(good, vfAnd(recs[0][0] == "h1", vfAnd(recs[0][1] == "h2", vfAnd(recs[1][1] == "x\"y", vfAnd(recs[2][0] == "only", recs[2][1] == "")))))
+		}
+	}
+	vfAssert(vfOr(err != nil, good), "success-means-the-output-parses-back-to-the-table")
+	vfObserveBool("err", err != nil)
+}
